@@ -47,3 +47,144 @@ def install(need_parser: bool = False) -> str:
         sys.modules[MODNAME] = m
     _installed = "stub"
     return _installed
+
+
+# ----------------------------------------------------------------------------------------------
+# Canonical API wrappers used by the correspondence checks
+# ----------------------------------------------------------------------------------------------
+from fractions import Fraction  # noqa: E402
+
+
+def ds_struct(name, comps):
+    """comps: [(name, type, role, nullable)] -> one entry of the VTL JSON 'datasets' list"""
+    return {"name": name, "DataStructure": [{"name": n, "type": t, "role": r, "nullable": nl} for n, t, r, nl in comps]}
+
+
+def structures(*dss, scalars=None):
+    d = {"datasets": list(dss)}
+    if scalars:
+        d["scalars"] = scalars
+    return d
+
+
+def canon_value(v):
+    """None | int | bool | str | 'p/q' exact rational string for floats/decimals (limit_denominator 10^6)."""
+    import math
+    import pandas as pd
+    import numpy as np
+    if v is None:
+        return None
+    try:
+        if v is pd.NA or v is pd.NaT:
+            return None
+    except Exception:
+        pass
+    if isinstance(v, (bool, np.bool_)):
+        return bool(v)
+    if isinstance(v, (int, np.integer)):
+        return int(v)
+    if isinstance(v, (float, np.floating)):
+        if math.isnan(v):
+            return None
+        if math.isinf(v):
+            return "inf" if v > 0 else "-inf"
+        f = Fraction(float(v)).limit_denominator(10 ** 6)
+        return int(f) if f.denominator == 1 and False else f"{f.numerator}/{f.denominator}"
+    try:
+        import decimal
+        if isinstance(v, decimal.Decimal):
+            f = Fraction(v).limit_denominator(10 ** 6)
+            return f"{f.numerator}/{f.denominator}"
+    except Exception:
+        pass
+    if isinstance(v, pd.Timestamp):
+        return str(v)
+    return str(v) if not isinstance(v, str) else v
+
+
+def canon_num(v):
+    """numeric values (int or float) as exact 'p/q' strings, for columns typed Number"""
+    c = canon_value(v)
+    if isinstance(c, bool) or c is None or isinstance(c, str):
+        return c
+    return f"{c}/1"
+
+
+def canon_dataset(ds):
+    """vtlengine.Model.Dataset -> {'comps': [(name, role, type, nullable)], 'rows': sorted list of tuples} (column order = comps)"""
+    comps = [(c.name, c.role.value if hasattr(c.role, "value") else str(c.role), c.data_type.__name__, bool(c.nullable))
+             for c in ds.components.values()]
+    rows = []
+    if ds.data is not None:
+        cols = [c[0] for c in comps if c[0] in ds.data.columns]
+        numcols = {c[0] for c in comps if c[2] == "Number"}
+        for rec in ds.data[cols].itertuples(index=False, name=None):
+            rows.append(tuple(canon_num(v) if cols[i] in numcols else canon_value(v) for i, v in enumerate(rec)))
+        rows.sort(key=lambda r: tuple((x is None, str(type(x).__name__), str(x)) for x in r))
+        data_cols = list(ds.data.columns)
+    else:
+        data_cols = None
+    return {"comps": comps, "rows": rows, "data_cols": data_cols}
+
+
+def classify_error(e):
+    """(kind, code): kind in Semantic, Runtime, DataLoad, InputValidation, Syntax, OtherVTL, RawDuckDB, RawPython"""
+    import vtlengine.Exceptions as X
+    code = e.args[1] if isinstance(e, X.VTLEngineException) and len(e.args) > 1 else None
+    if isinstance(e, X.SemanticError):
+        return ("Semantic", code)
+    if isinstance(e, X.RunTimeError):
+        return ("Runtime", code)
+    if isinstance(e, X.DataLoadError):
+        return ("DataLoad", code)
+    if isinstance(e, X.InputValidationException):
+        return ("InputValidation", code)
+    if isinstance(e, X.VTLSyntaxError):
+        return ("Syntax", None)
+    if isinstance(e, X.VTLEngineException):
+        return ("OtherVTL", code)
+    try:
+        import duckdb
+        if isinstance(e, duckdb.Error):
+            return ("RawDuckDB", type(e).__name__)
+    except Exception:
+        pass
+    return ("RawPython", type(e).__name__)
+
+
+def run_case(script, structs, datapoints, **kw):
+    """Runs vtlengine.run and canonicalises: {'ok': True, 'datasets': {...}, 'scalars': {...}} | {'ok': False, 'err': (kind, code), 'msg': str}"""
+    install(need_parser=True)
+    import copy
+    import vtlengine
+    from vtlengine.Model import Dataset, Scalar
+    try:
+        res = vtlengine.run(script, copy.deepcopy(structs), {k: (v.copy() if hasattr(v, "copy") else v) for k, v in datapoints.items()}
+                            if isinstance(datapoints, dict) else datapoints, **kw)
+    except Exception as e:  # noqa
+        return {"ok": False, "err": classify_error(e), "msg": str(e)[:500], "exc": e}
+    out = {"ok": True, "datasets": {}, "scalars": {}}
+    for k, v in res.items():
+        if isinstance(v, Dataset):
+            out["datasets"][k] = canon_dataset(v)
+        elif isinstance(v, Scalar):
+            out["scalars"][k] = (v.data_type.__name__, canon_num(v.value) if v.data_type.__name__ == "Number" else canon_value(v.value))
+    return out
+
+
+def semantic_case(script, structs, **kw):
+    install(need_parser=True)
+    import copy
+    import vtlengine
+    from vtlengine.Model import Dataset, Scalar
+    try:
+        res = vtlengine.semantic_analysis(script, copy.deepcopy(structs), **kw)
+    except Exception as e:  # noqa
+        return {"ok": False, "err": classify_error(e), "msg": str(e)[:500], "exc": e}
+    out = {"ok": True, "datasets": {}, "scalars": {}}
+    for k, v in res.items():
+        if isinstance(v, Dataset):
+            out["datasets"][k] = canon_dataset(v)["comps"]
+        elif isinstance(v, Scalar):
+            out["scalars"][k] = v.data_type.__name__
+    return out
